@@ -405,6 +405,11 @@ func (s *simT) run(done func() bool, drain bool) (wedged bool) {
 	lockWaitStart := int64(0)
 	for {
 		sn := s.waitQuiescent()
+		if !drain && done() {
+			// the requests have been answered: whatever background goroutines are
+			// parked stay parked until a later command releases them
+			return false
+		}
 		s.mu.Lock()
 		n := len(s.parked)
 		if s.passthrough.Load() {
